@@ -21,11 +21,28 @@
 (* every request-level schedule of them; otherwise use -simulate.          *)
 (***************************************************************************)
 EXTENDS Referrers, Json
-CONSTANTS Modes, Caches, Pages, TagDels, SubjSel, Spells, Dopts, Script, SerialPrefix, ObsPolicy, EmitOnly
+CONSTANTS Modes, Caches, Pages, TagDels, SubjSel, Spells, Dopts, Script, SerialPrefix, ObsPolicy, EmitOnly,
+          Inits,   \* initial states left by another client: records [seq, dup]
+          NAs      \* sets of artifacts without annotations
 VARIABLES hist, turn, obsI, needq, fetched, lockq
 gvars == <<dvars, hist, turn, obsI, needq, fetched, lockq>>
 
-GenConfs == ConfSpace(Modes, Caches, Pages, TagDels, SubjSel, Spells, Dopts)
+WithInit(c, i, n) == [f \in DOMAIN c \cup {"init", "idup", "na"} |->
+                         CASE f = "init" -> i.seq [] f = "idup" -> i.dup [] f = "na" -> n [] OTHER -> c[f]]
+GenConfs == {WithInit(c, i, n) : c \in ConfSpace(Modes, Caches, Pages, TagDels, SubjSel, Spells, Dopts),
+                                  i \in Inits, n \in NAs}
+\* initial states: nothing; another client pushed two / three referrers and listed them in an order this
+\* client would not produce; ... and listed each twice
+I0 == [seq |-> <<>>, dup |-> 0]
+InitsNone == {I0}
+InitsRev == {I0, [seq |-> <<"a2", "a1">>, dup |-> 0], [seq |-> <<"a3", "a1", "a2">>, dup |-> 0]}
+InitsAll == InitsRev \cup {[seq |-> <<"a2", "a1">>, dup |-> 1], [seq |-> <<"a3", "a2">>, dup |-> 1]}
+InitsDup == {[seq |-> <<"a2", "a1">>, dup |-> 1], [seq |-> <<"a2", "a1", "a3">>, dup |-> 1]}
+NAsNone == {{}}
+NAsSome == {{}, {"a1"}, {"a2", "a3"}, {"a1", "a2", "a3"}}
+\* an index that lists a referrer twice answers a listing with a duplicate whatever this client does:
+\* the harness observes only once every duplicated entry is gone (deleted through this client)
+NoDupTags == \A s \in Subj : ~HasDup(srvTag[s].v)
 P1 == <<"p1">>
 P2 == <<"p1", "p2">>
 P3 == <<"p1", "p2", "p3">>
@@ -43,6 +60,12 @@ ScriptMix1 == << <<"put", "a3">>, <<"put", "a1">>, <<"put", "a2">>, <<"del", "a3
 ScriptMix2 == << <<"put", "a1">>, <<"put", "a2">>, <<"del", "a1">>, <<"del", "a2">>, <<"put", "a3">> >>
 \* one long-lived client: pushes of manifests without a subject between referrer updates
 ScriptPlain == << <<"put", "a1">>, <<"plain", "n1">>, <<"put", "a2">>, <<"plain", "n1">>, <<"del", "a1">> >>
+\* re-push (a retry, a second copy) of what is already stored and listed, delete, push again
+ScriptRe == << <<"put", "a1">>, <<"put", "a1">>, <<"put", "a3">>, <<"put", "a3">>, <<"put", "a2">>, <<"put", "a2">> >>
+ScriptRe2 == << <<"put", "a2">>, <<"put", "a1">>, <<"del", "a2">>, <<"put", "a1">>, <<"put", "a2">>, <<"put", "a2">> >>
+\* updates of an index another client wrote: deletes first (entries listed twice), then pushes
+ScriptFD == << <<"del", "a1">>, <<"del", "a2">>, <<"put", "a1">>, <<"del", "a3">> >>
+ScriptFD2 == << <<"del", "a2">>, <<"put", "a3">>, <<"del", "a1">>, <<"put", "a2">> >>
 \* pushes only (the lock of referrerPut), re-push of the same artifact
 ScriptPP == << <<"put", "a1">>, <<"put", "a2">>, <<"put", "a1">> >>
 ScriptPPP == << <<"put", "a1">>, <<"put", "a2">>, <<"put", "a3">> >>
@@ -79,7 +102,8 @@ GLaunch(p, k, a) ==
   /\ Script # <<>> => <<k, a>> = Script[Nth] /\ (Nth <= SerialPrefix + 1 => AllIdle)
   \* random histories: delete only what some earlier call pushed (deleting a manifest that never
   \* existed is one error path, covered by deleting twice)
-  /\ (Script = <<>> /\ k = "del") => \E i \in 1..Len(hist) : hist[i].t = "launch" /\ hist[i].k = "put" /\ hist[i].a = a
+  /\ (Script = <<>> /\ k = "del") =>
+        (a \in Range(InitSeq) \/ \E i \in 1..Len(hist) : (hist[i].t = "launch" /\ hist[i].k = "put" /\ hist[i].a = a))
   /\ Launch(p, k, a)
   /\ Rec([t |-> "launch", p |-> p, k |-> k, a |-> a])
   /\ Pass(p) /\ needq' = TRUE
@@ -107,7 +131,7 @@ GLocal ==
   /\ UNCHANGED <<hist, obsI, needq, fetched>>
 
 GObserve ==
-  /\ turn = "" /\ obsI = 0 /\ needq /\ (ObsPolicy = "end" => left = 0)
+  /\ turn = "" /\ obsI = 0 /\ needq /\ (ObsPolicy = "end" => left = 0) /\ NoDupTags
   /\ Quiesce
   /\ Rec([t |-> "q", obs |-> 1])
   /\ obsI' = 1 /\ needq' = FALSE
